@@ -675,7 +675,7 @@ EXPECTED_PROBES = {
     "C03": ["rejected.with.error", "decoded.to.eof", "big.bwt.blocks"],
     "C10": ["corpus.entries", "differential.pairs"],
     "C18": ["instances"],
-    "C19": ["cli.runs", "cli.runs.race.build", "stdin.named.file", "kill.exhaustive.runs", "kill.source.gone.output.good", "safety.cases"],
+    "C19": ["cli.runs", "cli.runs.race.build", "stdin.named.file", "safety.decompress.onto.itself", "kill.exhaustive.runs", "kill.source.gone.output.good", "safety.cases"],
     "C05": ["failed.block.reported", "damage.undetected.nochecksum", "parser.agrees"],
     "C06": ["src.short.not.multiple.of.8", "write.1byte"],
     "C07": ["handoff.cancel.observed", "handoff.failed.tasks", "handoff.io.by.holder", "handoff.end.of.stream.task", "sink.fault.while.task.holds", "src.fault.while.task.holds"],
